@@ -59,6 +59,10 @@ pub struct Config {
 pub struct Plan {
     pub cfg: Config,
     pub threads: Vec<Vec<Op>>,
+    /// samples recorded into both histograms before the threads start (their sample buckets hold
+    /// 64 values per block: 62..64 puts the run's records next to a block hand-over)
+    #[serde(default)]
+    pub hist_prefill: u32,
 }
 
 #[derive(Clone, Debug)]
@@ -154,7 +158,8 @@ impl Scenario for C07Prometheus {
                     .collect(),
             );
         }
-        Plan { cfg, threads }
+        let hist_prefill = *r.pick(&[0u32, 0, 0, 61, 62, 63, 64, 127]);
+        Plan { cfg, threads, hist_prefill }
     }
     fn execute(&self, plan: &Plan, sched: &SchedSpec) -> RunReport {
         let hist: Arc<Mutex<Vec<Ev>>> = Arc::new(Mutex::new(vec![]));
@@ -164,6 +169,18 @@ impl Scenario for C07Prometheus {
             let (clock, mock) = quanta::Clock::mock();
             let (rec, handle) = build(&p.cfg, clock.clone(), None);
             let rec = Arc::new(rec);
+            if p.hist_prefill > 0 {
+                dsim::passthrough(true);
+                quanta::with_clock(&clock, || {
+                    for m in 3..5usize {
+                        for i in 0..p.hist_prefill {
+                            rec.register_histogram(&key_of(m, i as u8), &MD).record(1.0);
+                            h2.lock().unwrap().push(Ev { tid: 0, inv: 0, ret: 0, op: Op::HRec(m, 1), tag: 0, text: String::new() });
+                        }
+                    }
+                });
+                dsim::passthrough(false);
+            }
             let mut hs = vec![];
             for (ti, ops) in p.threads.iter().enumerate() {
                 let ops = ops.clone();
@@ -261,6 +278,11 @@ impl Scenario for C07Prometheus {
         if !p.cfg.global_labels.is_empty() {
             let mut q = p.clone();
             q.cfg.global_labels.pop();
+            out.push(q);
+        }
+        if p.hist_prefill > 0 {
+            let mut q = p.clone();
+            q.hist_prefill = if p.hist_prefill > 64 { 63 } else { 0 };
             out.push(q);
         }
         for f in 0..3 {
